@@ -108,6 +108,7 @@ func C04(tier string) int {
 	c04Seq(run, tier)
 	c04Case(run)
 	c04Long(run)
+	c04Slow(run)
 	c04Sched(run, tier)
 	return run.Finish()
 }
@@ -305,6 +306,66 @@ func c04Long(run *h.Run) {
 }
 
 func init() { h.RegisterReplayer("c04-long", evalC04Long) }
+
+// ---- a slow backend and a read timeout: segmentation still does not matter -------------------------------------------
+
+type C04SlowCase struct {
+	Mode string `json:"mode"`
+	Cut  int    `json:"cut"` // the conversation arrives in two segments, cut here (0: one segment)
+}
+
+const c04SlowConv = "MAIL FROM:<ok@a.example> SIZE=10\r\nRCPT TO:<ok@b.example>\r\nRCPT TO:<ok2@b.example> NOTIFY=SUCCESS,FAILURE\r\nNOOP\r\nRSET\r\nMAIL FROM:<ok3@a.example>\r\nQUIT\r\n"
+
+func c04SlowRun(c C04SlowCase) (*h.Obs, string) {
+	pc := ref.PConfig{LMTP: strings.HasPrefix(c.Mode, "lmtp"), LMTPBackend: c.Mode == "lmtp-rcpt", AllowInsecureAuth: true, AuthBackend: true}
+	cfg, be := serverFor(pc)
+	cfg.ReadTO, cfg.WriteTO = time.Minute, time.Minute
+	be.Delay = 90 * time.Second // every Mail/Rcpt callback takes longer than the read timeout
+	in := []byte(hello(c.Mode) + c04SlowConv)
+	segs := h.OneSeg(in)
+	if c.Cut > 0 {
+		segs = h.SplitAt(in, c.Cut)
+	}
+	o := h.RunS(cfg, be, segs, h.TermEOF)
+	var sb strings.Builder
+	for _, r := range o.Replies {
+		sb.WriteString(r.String() + "|")
+	}
+	for _, e := range o.Trace {
+		fmt.Fprintf(&sb, "%s(%s;%s)", e.Kind, e.Arg, e.Opts)
+	}
+	return o, sb.String()
+}
+
+func evalC04Slow(c C04SlowCase) *h.Finding {
+	o, got := c04SlowRun(c)
+	desc := fmt.Sprintf("mode=%s: ReadTimeout 1m, every Mail/Rcpt callback takes 90s, the conversation cut after octet %d", c.Mode, c.Cut)
+	if f := o.Sanity("c04", desc); f != nil {
+		return f
+	}
+	_, want := c04SlowRun(C04SlowCase{Mode: c.Mode})
+	if got != want {
+		return h.F("c04-discipline-differs", "%s: the outcome differs from the same conversation sent in one segment.\n   cut:  %s\n   one:  %s", desc, got, want)
+	}
+	return nil
+}
+
+func c04Slow(run *h.Run) {
+	for _, mode := range corpusModes {
+		n := len(hello(mode) + c04SlowConv)
+		h.ParallelFor(n, func(k int) {
+			c := C04SlowCase{Mode: mode, Cut: k}
+			f := evalC04Slow(c)
+			run.Eval(true)
+			if f != nil {
+				run.Violate("c04-slow", c, f, func() *h.Finding { return evalC04Slow(c) })
+				run.Outcome("violation:" + f.Sig)
+			}
+		})
+	}
+}
+
+func init() { h.RegisterReplayer("c04-slow", evalC04Slow) }
 
 func c04Case(run *h.Run) {
 	for _, mode := range corpusModes {
